@@ -18,3 +18,155 @@ package handler
 //@   ensures[C17] err == nil && r <= 0 ==> r == -1 && !cdAnyHit(fcontent[f]) @none
 //@   ensures[C17] iofaults == old(iofaults) && fsize[f] >= 0x200000 ==> err == nil @no-spurious-error
 //@   ensures err != nil ==> r == -1
+
+// ---- per-connection state (C13) and write gating (C05) -------------------------------------------
+//
+// owned(ctx): the handles this connection holds. newlyOpen(ctx): every handle that is open now and
+// was not open when the call started is one of the three state slots — i.e. nothing leaks.
+
+//@ pred held(ctx *Context, g ref) := g != nil && (g == ctx.State.CwdHandle || g == ctx.State.ROFile || g == ctx.State.WOFile)
+//@ pred noLeak(ctx *Context) := forall g {fopen[g]} :: fopen[g] && !old(fopen[g]) ==> held(ctx, g)
+
+//@ func Handler.HandleOpenDir results(ok)
+//@   tags C04,C05,C06,C13
+//@   requires h != nil && h.Fs != nil && ctx != nil
+//@   modifies ctx.State.CwdHandle, fopen, fpos, iofaults
+//@   ensures[C05] fsw == old(fsw) @no-write
+//@   ensures[C13] noLeak(ctx) @no-leak
+//@   ensures[C06] ok ==> ctx.State.CwdHandle != nil && pisdir(fpath[ctx.State.CwdHandle]) && fpath[ctx.State.CwdHandle] == path @dir-opened
+//@   ensures[C06] iofaults == old(iofaults) && pexists(path) ==> ok == pisdir(path) @truthful
+
+//@ func Handler.HandleCloseFile
+//@   tags C04,C05,C13
+//@   requires ctx != nil
+//@   modifies ctx.State.ROFile, ctx.State.CDSectorSize, fopen
+//@   ensures[C05] fsw == old(fsw)
+//@   ensures[C13] noLeak(ctx) && ctx.State.ROFile == nil && (old(ctx.State.ROFile) != nil ==> !fopen[old(ctx.State.ROFile)])
+
+//@ pred wfState(ctx *Context) := ctx != nil && (ctx.State.CDSectorSize == 0 || cdSize(ctx.State.CDSectorSize))
+//@   && (ctx.State.ROFile != nil ==> limbase[ctx.State.ROFile] == 0)
+
+//@ func wrapFileInfoForExtendedTimes results(ret)
+//@   trusted
+//@   requires fi != nil
+//@   ensures ret != nil && fisdir[ret] == fisdir[fi] && fisize[ret] == fisize[fi] && finame[ret] == finame[fi] && fimode[ret] == fimode[fi]
+
+//@ func State.Close results(err)
+//@   tags C04,C13
+//@   requires s != nil
+//@   modifies s.ROFile, s.CwdHandle, s.WOFile, s.CDSectorSize, fopen
+//@   ensures[C13] s.ROFile == nil && s.CwdHandle == nil && s.WOFile == nil @cleared
+//@   ensures[C13] (old(s.ROFile) != nil ==> !fopen[old(s.ROFile)]) && (old(s.CwdHandle) != nil ==> !fopen[old(s.CwdHandle)]) && (old(s.WOFile) != nil ==> !fopen[old(s.WOFile)]) @closed
+//@   ensures[C13] forall g {fopen[g]} :: fopen[g] ==> old(fopen[g]) @nothing-opened
+
+//@ func Handler.HandleOpenFile results(fi, err)
+//@   tags C04,C05,C13,C17,C02
+//@   requires h != nil && h.Fs != nil && ctx != nil
+//@   modifies ctx.State.ROFile, ctx.State.CDSectorSize, fopen, fpos, iofaults
+//@   ensures[C05] fsw == old(fsw) @no-write
+//@   ensures[C13] noLeak(ctx) && (old(ctx.State.ROFile) != nil && old(ctx.State.ROFile) != ctx.State.ROFile ==> !fopen[old(ctx.State.ROFile)]) @no-leak
+//@   ensures[C02] err == nil ==> fi != nil && ctx.State.ROFile != nil && fisize[fi] == fsize[ctx.State.ROFile] && fpath[ctx.State.ROFile] == path @announced-size
+//@   ensures[C17] err == nil ==> cdSize(ctx.State.CDSectorSize) @sector-size-valid
+//@   ensures[C17] err == nil && (fsize[ctx.State.ROFile] < 0x200000 || fsize[ctx.State.ROFile] > 0x35000000) ==> ctx.State.CDSectorSize == 2352 @default
+//@   ensures[C17] err == nil && iofaults == old(iofaults) && fsize[ctx.State.ROFile] >= 0x200000 && fsize[ctx.State.ROFile] <= 0x35000000 ==> (cdAnyHit(fcontent[ctx.State.ROFile]) ? cdHit(fcontent[ctx.State.ROFile], ctx.State.CDSectorSize) : ctx.State.CDSectorSize == 2352) @detected
+
+//@ func Handler.HandleReadFileCritical results(err)
+//@   tags C02,C04,C05,C13
+//@   any k int
+//@   requires h != nil && h.Copier != nil && wfState(ctx) && w != nil && isconn[w] && limit >= 0
+//@   wrapok int64(offset)
+//@   modifies fpos, limbase, wn[w], wdata[w], iofaults
+//@   ensures[C05] fsw == old(fsw) @no-write
+//@   ensures[C13] fopen == old(fopen) @no-handle-change
+//@   ensures[C02] wn[w] >= old(wn[w]) && wn[w] <= old(wn[w]) + limit @at-most-limit
+//@   ensures[C02] old(wn[w]) <= k && k < wn[w] ==> wdata[w][k] == fcontent[ctx.State.ROFile][offset + k - old(wn[w])] @correct-prefix
+//@   ensures[C02] k < old(wn[w]) ==> wdata[w][k] == old(wdata[w][k]) @earlier-output-kept
+//@   ensures[C02] err == nil ==> wn[w] == old(wn[w]) + limit @complete-or-error
+
+//@ func Handler.HandleReadCD2048Critical results(err)
+//@   tags C17,C04,C05,C13
+//@   any s int
+//@   any j int
+//@   requires h != nil && h.Copier != nil && wfState(ctx) && w != nil && isconn[w]
+//@   cases ctx.State.CDSectorSize: 2048, 2328, 2336, 2340, 2352, 2368, 2448
+//@   modifies fpos, limbase, wn[w], wdata[w], iofaults
+//@   ensures[C05] fsw == old(fsw) @no-write
+//@   ensures[C13] fopen == old(fopen)
+//@   ensures[C17] err == nil ==> wn[w] == old(wn[w]) + 2048 * sectorsCount @length
+//@   ensures[C17] err == nil && 0 <= s && s < sectorsCount && 0 <= j && j < 2048 ==> wdata[w][old(wn[w]) + 2048 * s + j] == fcontent[ctx.State.ROFile][24 + (startSector + s) * ctx.State.CDSectorSize + j] @user-data
+//@   ensures[C17] wn[w] >= old(wn[w]) && wn[w] <= old(wn[w]) + 2048 * sectorsCount
+//@   loop 1 invariant ctx.State.ROFile != nil && cdSize(ctx.State.CDSectorSize) && 0 <= $idx && offset == 24 + (startSector + $idx) * ctx.State.CDSectorSize @offset
+//@   loop 1 invariant wn[w] == old(wn[w]) + 2048 * $idx && fsw == old(fsw) && fopen == old(fopen) && iofaults >= old(iofaults) && limbase[ctx.State.ROFile] == 0 @progress
+//@   loop 1 invariant 0 <= s && s < $idx && 0 <= j && j < 2048 ==> wdata[w][old(wn[w]) + 2048 * s + j] == fcontent[ctx.State.ROFile][24 + (startSector + s) * ctx.State.CDSectorSize + j] @user-data
+
+//@ func Handler.HandleCreateFile results(err)
+//@   tags C05,C04,C13
+//@   requires h != nil && h.Fs != nil && ctx != nil
+//@   modifies ctx.State.WOFile, fopen, fpos, iofaults, fsw
+//@   ensures[C05] !h.AllowWrite ==> err == ErrWriteForbidden && fsw == old(fsw) && fopen == old(fopen) && ctx.State.WOFile == old(ctx.State.WOFile) @refused
+//@   ensures[C05] fsw <= old(fsw) + 1 @at-most-one-mutation
+//@   ensures[C05] h.AllowWrite && err == nil && !(pexists(path) && pisdir(path)) ==> ctx.State.WOFile != nil && fpath[ctx.State.WOFile] == path && fsw == old(fsw) + 1 @opened-for-write
+//@   ensures[C05] h.AllowWrite && iofaults == old(iofaults) && !(pexists(path) && pisdir(path)) && pcreatable(path) ==> err == nil @new-or-existing-file
+//@   ensures[C13] noLeak(ctx) && (old(ctx.State.WOFile) != nil && h.AllowWrite ==> !fopen[old(ctx.State.WOFile)]) @no-leak
+
+//@ func Handler.HandleWriteFile results(n, err)
+//@   tags C05,C04,C13
+//@   any k int
+//@   requires h != nil && h.Copier != nil && ctx != nil && data != nil
+//@   wrapok int32(written)
+//@   modifies wn[ctx.State.WOFile], wdata[ctx.State.WOFile], fpos, iofaults, fsw
+//@   ensures[C05] !h.AllowWrite ==> err == ErrWriteForbidden && fsw == old(fsw) && wn == old(wn) @refused
+//@   ensures[C05] err == nil ==> ctx.State.WOFile != nil && wn[ctx.State.WOFile] - old(wn[ctx.State.WOFile]) >= 0 @stored-length
+//@   ensures[C05] err == nil && old(wn[ctx.State.WOFile]) <= k && k < wn[ctx.State.WOFile] ==> wdata[ctx.State.WOFile][k] == fcontent[data][old(fpos[data]) + k - old(wn[ctx.State.WOFile])] @stored-bytes
+//@   ensures[C13] fopen == old(fopen)
+
+//@ func Handler.HandleDeleteFile results(err)
+//@   tags C05,C04,C13
+//@   requires h != nil && h.Fs != nil
+//@   modifies iofaults, fsw
+//@   ensures[C05] !h.AllowWrite ==> err == ErrWriteForbidden && fsw == old(fsw) @refused
+//@   ensures[C05] h.AllowWrite ==> fsw == old(fsw) + 1 @one-mutation
+//@   ensures[C13] fopen == old(fopen)
+
+//@ func Handler.HandleMkdir results(err)
+//@   tags C05,C04,C13
+//@   requires h != nil && h.Fs != nil
+//@   modifies iofaults, fsw
+//@   ensures[C05] !h.AllowWrite ==> err == ErrWriteForbidden && fsw == old(fsw) @refused
+//@   ensures[C05] h.AllowWrite ==> fsw == old(fsw) + 1 @one-mutation
+//@   ensures[C13] fopen == old(fopen)
+
+//@ func Handler.HandleRmdir results(err)
+//@   tags C05,C04,C13
+//@   requires h != nil && h.Fs != nil
+//@   modifies iofaults, fsw
+//@   ensures[C05] !h.AllowWrite ==> err == ErrWriteForbidden && fsw == old(fsw) @refused
+//@   ensures[C05] h.AllowWrite ==> fsw == old(fsw) + 1 @one-mutation
+//@   ensures[C13] fopen == old(fopen)
+
+//@ func Handler.HandleStatFile results(fi, err)
+//@   tags C05,C06,C04,C13
+//@   requires h != nil && h.Fs != nil
+//@   modifies iofaults
+//@   ensures[C05] fsw == old(fsw)
+//@   ensures[C13] fopen == old(fopen)
+//@   ensures[C06] err == nil ==> fi != nil && fisdir[fi] == pisdir(path) && (!pisdir(path) ==> fisize[fi] == psize(path)) && pexists(path) @truthful
+//@   ensures[C06] !pexists(path) ==> err != nil @missing
+//@   ensures[C06] iofaults == old(iofaults) && pexists(path) ==> err == nil @found
+
+//@ func Handler.HandleGetDirSize results(n, err)
+//@   tags C05,C06,C04,C13
+//@   requires h != nil && h.Fs != nil
+//@   modifies iofaults, walkroot
+//@   ensures[C05] fsw == old(fsw)
+//@   ensures[C13] fopen == old(fopen)
+//@   ensures[C06] walkroot == path @walk-rooted-at-request
+//@   ensures err == nil
+
+//@ func Handler.HandleGetDirSize$1 params(path, info, err)
+//@   tags C06,C04
+//@   requires err == nil ==> info != nil
+//@   ensures[C06] err == nil && !fisdir[info] && -(1<<63) <= old(size) + fisize[info] && old(size) + fisize[info] < 1<<63 ==> size == old(size) + fisize[info] @adds-regular-files
+//@   ensures[C06] err != nil || fisdir[info] ==> size == old(size) @skips-directories-and-errors
+//@   ensures result == nil
+//@   wrapok size+=info.Size()
